@@ -155,6 +155,7 @@ enum RK {
   RK_CNAME_DATA,      // CNAME chain then data
   RK_DATA_MIXED,      // answer carries both A and AAAA + unrelated RR
   RK_DATA_MULTI,      // three records of the asked type with ttls 100,50,7
+  RK_DATA_SOA,        // one record of the asked type, ttl 100, plus an authority SOA with ttl 10 (a TTL shorter than the entry's lifetime)
   RK_NKINDS
 };
 extern const char *rk_names[];
